@@ -14,10 +14,11 @@ PID = "C13"
 LEAN_MODULE = "NiVerif.Props.C13"
 NAMESPACE = "Props.C13"
 DRIVER = "drivers/Wfm.lean"
-GEN_MODULES = ["TimeValueTuple", "TimeDelta", "DateTime", "BtDtypes"]
-EXTRA_LEAN_MODULES = ["NiVerif.Model.WfmProto"]
+GEN_MODULES = ["TimeValueTuple", "TimeDelta", "DateTime", "BtDtypes", "ExtProps"]
+EXTRA_LEAN_MODULES = ["NiVerif.Model.WfmProto", "NiVerif.Props.ExtProps"]
 THEOREMS = ["pickle_succeeds", "pickle_observe", "eq_ignores_slack", "pickle_equal", "pickle_twice", "timing_pickle",
-            "bintime_pickle"]
+            "bintime_pickle",
+            "Props.ExtProps.gen_init_copies"]
 RULE = ("values of every public type — DateTime, TimeDelta (128-bit edge lattice), DateTimeArray, TimeDeltaArray, "
         "Timing (3 modes x 3 families), scale modes, ExtendedPropertyDictionary, Analog/Complex/Digital waveforms and "
         "Spectrum reached through seeded histories (allocation slack, borrowed buffers, cached signal names, shared "
